@@ -40,34 +40,31 @@ theorem planLinked_hasLIB (cfg : Config) (s1 : FState) (b : Blk) (trig : Bool) (
 
 /-- what `plan` can return when the LIB is known and no inclusive starting block is awaited -/
 theorem plan_cases (cfg : Config) (s : FState) (b : Blk) (hni : s.includeInit = false) (hlib : s.db.libRef.id ≠ "") :
-    (∃ r, plan cfg s b = .done s r) ∨
+    ((∃ r, plan cfg s b = .done s r) ∧
+      (b.id = b.parent ∨ (b.num < s.db.libRef.num ∧ s.lastSent.isSome = true) ∨
+        switchSegments cfg s b (triggers cfg s b) = none ∨ (s.db.addLink b).2 = true)) ∨
     ((s.db.addLink b).2 = false ∧ b.id ≠ b.parent ∧ ¬ (b.num < s.db.libRef.num ∧ s.lastSent.isSome = true) ∧
       ∃ u r j, switchSegments cfg s b (triggers cfg s b) = some (u, r, j) ∧
         plan cfg s b = planLinked cfg (afterLink s b) b (triggers cfg s b) u r j) := by
   unfold plan
   by_cases h1 : (b.id == b.parent) = true
-  · rw [if_pos h1]; exact Or.inl ⟨_, rfl⟩
+  · rw [if_pos h1]; exact Or.inl ⟨⟨_, rfl⟩, Or.inl (by simpa using h1)⟩
   · rw [if_neg h1]
     by_cases h2 : (decide (b.num < s.db.libRef.num) && s.lastSent.isSome) = true
-    · rw [if_pos h2]; exact Or.inl ⟨_, rfl⟩
+    · rw [if_pos h2]; exact Or.inl ⟨⟨_, rfl⟩, Or.inr (Or.inl (by simpa using h2))⟩
     · rw [if_neg h2]
       have h0 : ¬ ((s.includeInit && s.lastSent.isNone && b.id == s.db.libRef.id) = true) := by rw [hni]; simp
       simp only
       rw [if_neg h0]
       cases hsw : switchSegments cfg s b (triggers cfg s b) with
-      | none => exact Or.inl ⟨_, rfl⟩
+      | none => exact Or.inl ⟨⟨_, rfl⟩, Or.inr (Or.inr (Or.inl rfl))⟩
       | some usj =>
         obtain ⟨u, r, j⟩ := usj
         simp only
         by_cases h3 : (s.db.addLink b).2 = true
-        · rw [if_pos h3]; exact Or.inl ⟨_, rfl⟩
+        · rw [if_pos h3]; exact Or.inl ⟨⟨_, rfl⟩, Or.inr (Or.inr (Or.inr h3))⟩
         · rw [if_neg h3]
           exact Or.inr ⟨by simpa using h3, by simpa using h1, by simpa using h2, u, r, j, rfl, rfl⟩
-
-end BstreamVerif.Forkable
-
-namespace BstreamVerif.Forkable
-open BstreamVerif BstreamVerif.ForkDB
 
 theorem computeLongestChain_cases (cfg : Config) (s : FState) (b : Blk) :
     (∃ c cs, s.cache = some (c :: cs) ∧ b.parent = (((c :: cs).getLast?.map (fun (e : Entry) => e.blk.id)).getD "") ∧
@@ -180,5 +177,141 @@ theorem processBlock_head (cfg : Config) (s : FState) (b : Blk) (f : Option Nat)
     split
     · exact phase_allHead _ _ _ h1 (mkEvents_head _ _ _ _ _)
     · exact h1
+
+end BstreamVerif.Forkable
+
+namespace BstreamVerif.Forkable
+open BstreamVerif BstreamVerif.ForkDB
+
+theorem walkDown_nonlast_present (db : DB) (fuel : Nat) (cur : Id) (l : List Id) (x y : Id) (r : List Id)
+    (h : db.walkDown fuel cur = l ++ x :: y :: r) : (db.find x).isSome = true := by
+  induction fuel generalizing cur l with
+  | zero => simp [DB.walkDown] at h
+  | succ n ih =>
+    unfold DB.walkDown at h
+    by_cases hl : (db.link cur == "") = true
+    · simp only [hl, if_true] at h
+      cases l with
+      | nil => simp at h
+      | cons a t => cases t <;> simp at h
+    · simp only [hl, Bool.false_eq_true, if_false] at h
+      cases l with
+      | nil =>
+        simp only [List.nil_append, List.cons.injEq] at h
+        rw [← h.1]
+        cases hf : db.find cur with
+        | some e => rfl
+        | none => simp [DB.link, hf] at hl
+      | cons a t =>
+        simp only [List.cons_append, List.cons.injEq] at h
+        exact ih _ t h.2
+
+theorem mapM_find_some (db : DB) (ids : List Id) (h : ∀ x ∈ ids, (db.find x).isSome = true) :
+    ∃ es, ids.mapM db.find = some es := by
+  induction ids with
+  | nil => exact ⟨[], rfl⟩
+  | cons a t ih =>
+    obtain ⟨es, hes⟩ := ih (fun x hx => h x (by simp [hx]))
+    cases hf : db.find a with
+    | none => have := h a (by simp); rw [hf] at this; cases this
+    | some e => exact ⟨e :: es, by rw [List.mapM_cons, hf, hes]; rfl⟩
+
+/-- the undo / redo segments never name a block that is not stored: `sentChainSwitch` never takes its panic branch -/
+theorem sentChainSwitch_ne_none (db : DB) (a b : Id) : sentChainSwitch db a b ≠ none := by
+  unfold sentChainSwitch
+  split
+  · simp
+  · cases hcs : db.chainSwitchSegments a b with
+    | none => simp
+    | some t =>
+      obtain ⟨undo, redo, j⟩ := t
+      simp only
+      obtain ⟨⟨rest, hrest⟩, _, _, _, hrp, _, _, _⟩ := chainSwitchSegments_sound db a b undo redo j hcs
+      have hu : ∀ x ∈ undo, (db.find x).isSome = true := by
+        intro x hx
+        obtain ⟨l1, l2, hl⟩ := List.append_of_mem hx
+        cases l2 with
+        | nil =>
+          apply walkDown_nonlast_present db _ a l1 x j rest
+          rw [hrest, hl]; simp
+        | cons y l2' =>
+          apply walkDown_nonlast_present db _ a l1 x y (l2' ++ j :: rest)
+          rw [hrest, hl]; simp
+      have hr : ∀ x ∈ redo, (db.find x).isSome = true := isPath_present db j redo hrp
+      obtain ⟨us, hus⟩ := mapM_find_some db undo hu
+      obtain ⟨rs, hrs⟩ := mapM_find_some db redo hr
+      rw [hus, hrs]
+      simp
+
+theorem switchSegments_ne_none (cfg : Config) (s : FState) (b : Blk) (t : Bool) : switchSegments cfg s b t ≠ none := by
+  unfold switchSegments
+  split
+  · split
+    · exact sentChainSwitch_ne_none _ _ _
+    · simp
+  · simp
+
+end BstreamVerif.Forkable
+
+namespace BstreamVerif.Forkable
+open BstreamVerif BstreamVerif.ForkDB
+
+theorem planLinked_not_invalid (cfg : Config) (s1 : FState) (b : Blk) (trig : Bool) (u r : List Entry) (j : Option Ref)
+    (s' : FState) : planLinked cfg s1 b trig u r j ≠ .done s' .errInvalid := by
+  unfold planLinked
+  dsimp only
+  generalize (if s1.db.hasLIB = true then s1 else { s1 with db := s1.db.setLIB cfg.fsb b.ref b.lib }) = s2
+  intro h
+  split at h
+  · cases h
+  · split at h
+    · injection h with _ h2; cases h2
+    · split at h
+      · injection h with _ h2; cases h2
+      · injection h with _ h2; cases h2
+      · split at h
+        · injection h with _ h2; cases h2
+        · cases h
+
+/-- **the only block `ProcessBlock` rejects as invalid is one that names itself as parent**: in particular the branch
+    in which the Go code would dereference a missing block of the undo/redo segments is never taken, for any state -/
+theorem invalid_only_for_self_parent (cfg : Config) (s : FState) (b : Blk) (f : Option Nat)
+    (h : (processBlock cfg s b f).2.2 = .errInvalid) : b.id = b.parent := by
+  unfold processBlock at h
+  cases hp : plan cfg s b with
+  | initial s' =>
+    rw [hp] at h
+    simp only [processInitialInclusive, finish] at h
+    split at h <;> cases h
+  | switch s3 lc u r j fi =>
+    rw [hp] at h
+    simp only [advanceLIB, finish] at h
+    split at h <;> cases h
+  | done s' r =>
+    rw [hp] at h
+    simp only at h
+    subst h
+    unfold plan at hp
+    by_cases c1 : (b.id == b.parent) = true
+    · exact beq_iff_eq.mp c1
+    · rw [if_neg c1] at hp
+      exfalso
+      by_cases c2 : (decide (b.num < s.db.libRef.num) && s.lastSent.isSome) = true
+      · rw [if_pos c2] at hp; injection hp with _ h2; cases h2
+      · rw [if_neg c2] at hp
+        dsimp only at hp
+        by_cases c3 : (s.includeInit && s.lastSent.isNone && b.id == s.db.libRef.id) = true
+        · rw [if_pos c3] at hp; cases hp
+        · rw [if_neg c3] at hp
+          cases hsw : switchSegments cfg s b (triggers cfg s b) with
+          | none => exact switchSegments_ne_none cfg s b _ hsw
+          | some x =>
+            obtain ⟨u0, r0, j0⟩ := x
+            rw [hsw] at hp
+            dsimp only at hp
+            by_cases c4 : (s.db.addLink b).2 = true
+            · rw [if_pos c4] at hp; injection hp with _ h2; cases h2
+            · rw [if_neg c4] at hp
+              exact planLinked_not_invalid _ _ _ _ _ _ _ _ hp
 
 end BstreamVerif.Forkable
